@@ -88,7 +88,7 @@ def run(ctx):
     ctx.assume('-0.4 at 0.55um within 4 ulp (the code computes (-0.4*chi)/chi)',
                'queries within 1e-12 relative of a table end: inside/outside is a don\'t-care; node queries are made in the table\'s own unit',
                'tables not covering V or not increasing are outside the quantifier')
-    ctx.require_events('Extinction.get_av:post', 'pair:chi-scaling', 'pair:units', 'roundtrip:pickle', 'roundtrip:table',
+    ctx.require_events('query:same-length-and-ends-as-table', 'Extinction.get_av:post', 'pair:chi-scaling', 'pair:units', 'roundtrip:pickle', 'roundtrip:table',
                        'roundtrip:file', 'at-V', 'history:chi-reassigned', 'history:table-replaced', 'history:wav-reassigned', 'query:scalar', 'V-on-node', 'roundtrip:file-defaults', 'history:chi-scaled-with-augmented-assignment')
     ctx.require_regimes('opacities:many-decades-from-1', 'rows=2', 'rows>=100', 'query:outside', 'query:node', 'query:inside')
     n_tab = 150 if ctx.quick else 4000
@@ -143,6 +143,18 @@ def run(ctx):
         ctx.regime('query:node', n)
         if np.any(np.abs(got - refn) > rel_tol(tw_um, chi_native, tw_um) * np.abs(refn)):
             ctx.violation('get_av:wrong-value-at-node', 'pattern at a table node is not -0.4 chi_node/chi_V', dict(wit, got=got, expected=refn))
+        # as many query wavelengths as the table has rows, the first and last on the end nodes, the others elsewhere (a regular grid
+        # laid over an irregular table), in the table's own unit
+        if n >= 3:
+            qe = np.linspace(tv[0], tv[-1], n)
+            qe[0], qe[-1] = tv[0], tv[-1]
+            gote = np.asarray(law.get_av(qe * unit), float)
+            refe = O.ext_pattern(tw_um, chi_native, qe * fac)
+            refe[0], refe[-1] = refn[0], refn[-1]          # (the end nodes themselves: the node values)
+            ctx.event('query:same-length-and-ends-as-table')
+            if gote.shape != refe.shape or np.any(np.abs(gote - refe) > rel_tol(tw_um, chi_native, np.clip(qe * fac, tw_um[0], tw_um[-1]), 1e-11) * np.abs(refe) + 1e-300):
+                ctx.violation('get_av:wrong-value', 'pattern differs from -0.4 chi/chi_V for a query with as many wavelengths as the table has rows and the same end points',
+                              dict(wit, query_unit=un, query=qe, got=gote, expected=refe))
         # exactly -0.4 at V
         gv = float(np.asarray(law.get_av([0.55] * u.micron), float)[0])
         ctx.event('at-V')
